@@ -221,6 +221,43 @@ Theorem C10_set_file_state_preserves_FlagInv_partial :
     FlagInv_safe (set_file_state g k st h) /\ FlagInv_ready (set_file_state g k st h).
 Proof. exact set_file_state_sound_repo. Qed.
 
+(* File.set_state and _implied_need: sound when no file with that key changes to or from VOLATILE *)
+Theorem C10_set_file_state_preserves_FlagInv_need :
+  forall g k st h,
+    (forall f, In f (g_files g) -> f_key f = k -> (f_state f =? FS_VOLATILE) = (st =? FS_VOLATILE)) ->
+    FlagInv_need g -> FlagInv_need (set_file_state g k st h).
+Proof. exact set_file_state_need_sound. Qed.
+
+(* A new step row (Step.initialize_row on a fresh node: no edges yet, nobody's creator yet; a row
+   created with _safe = 1 must not have a step as creator) *)
+Theorem C10_create_step_preserves_FlagInv :
+  forall g k creator det need safe stored dur res rank,
+    ~ In k (map s_key (g_steps g)) ->
+    (forall d, In d (g_deps g) -> d_src d <> k /\ d_snk d <> k) ->
+    (forall s, In s (g_steps g) -> s_creator s <> Some k) ->
+    CreatorRank g rank ->
+    (safe = true ->
+     creator_step (create_step g k creator det need safe stored dur res)
+       (mkStep k init_state need false 0 0 det creator safe safe need false stored stored
+               (negb safe) true true dur 1 res) = None) ->
+    FlagInv g -> FlagInv (create_step g k creator det need safe stored dur res).
+Proof.
+  intros g k creator det need safe stored dur res rank H1 H2 H3 HR H4 [HFs [HFn HFr]].
+  split; [|split].
+  - eapply create_step_safe_sound; eassumption.
+  - apply create_step_need_sound; assumption.
+  - apply create_step_ready_sound; assumption.
+Qed.
+
+(* Step.detach / Step.reattach: _safe (the other two columns are not proved; the model primitives
+   are validated against the real calls and the oracle checks FlagInv after every real operation) *)
+Theorem C10_detach_preserves_FlagInv_safe :
+  forall g k, FlagInv_safe g -> FlagInv_safe (detach_step g k).
+Proof. exact detach_step_safe_sound. Qed.
+Theorem C10_reattach_preserves_FlagInv_safe :
+  forall g k c cdet, FlagInv_safe g -> FlagInv_safe (reattach_step g k c cdet).
+Proof. exact reattach_step_safe_sound. Qed.
+
 (* Non-vacuity: the hypotheses are satisfiable by a graph with a chain plan -> c -> b, and the
    refutation witnesses are concrete. *)
 Example C10_example_hypotheses :
